@@ -27,6 +27,10 @@ abbrev Coins := List (Denom × Int)
 
 def blockedAddr : Addr := 900
 def escrowAcct (c : Nat) : Addr := 1000 + c
+/-- packet-forward-middleware's intermediate receiver for packets arriving on hub channel `c`
+    (`packetforward.GetReceiver(channel, originalSender)`: a hash address nobody holds a key of; the
+    counterparty-side sender is one constant in the harness) -/
+def pfmAddr (c : Nat) : Addr := 2000 + c
 
 /-- static description of a hub-side transfer channel -/
 structure Chan where
@@ -45,6 +49,7 @@ structure Rollapp where
 
 inductive Memo
   | none | notJson | noEibc | eibc (fee : Int) | eibcBad
+  | forward (c : Nat)      -- packet-forward-middleware: `{"forward":{"receiver":…,"port":"transfer","channel":<hub channel c>}}`
   deriving DecidableEq, Repr, Inhabited
 
 /-- what `RollappPacket.Error` records when the callback at finalization failed -/
@@ -52,6 +57,8 @@ inductive PErr
   | ackClosed                                -- `WriteAcknowledgement`: the channel end is not OPEN / FLUSHING / FLUSHCOMPLETE
   | ackExists                                -- `WriteAcknowledgement`: an acknowledgement is already stored
   | refund (bal amt : Int) (d : Denom)       -- the refund could not be paid out of the channel escrow (balance, amount)
+  | fwdMove (bal amt : Int) (d : Denom)      -- packet-forward refund: escrow → refund-channel escrow failed
+  | fwdBurn (bal amt : Int) (d : Denom)      -- packet-forward refund: escrow → module account (burn) failed
   deriving DecidableEq, Repr, Inhabited
 
 /-- `commontypes.RollappPacket` (with the ICS-20 data it carries, already interpreted) -/
@@ -70,6 +77,12 @@ structure Packet where
   orig : Option Addr       -- OriginalTransferTarget
   ackErr : Bool            -- ON_ACK: the stored acknowledgement is an error acknowledgement
   perr : Option PErr       -- Error (none = "")
+  -- ghost (not in the stored packet; lives in packet-forward-middleware's in-flight store under the packet's
+  -- (channel, port, sequence)): the hub sent this packet as a FORWARD of the packet received on hub channel
+  -- `fwd.1` with sequence `fwd.2` (the "refund channel / sequence")
+  fwd : Option (Nat × Nat) := none
+  -- ghost: (sent packets) the receiver named in the transfer data decodes to a blocked hub account
+  cpBlocked : Bool := false
   deriving DecidableEq, Repr, Inhabited
 
 structure Order where
@@ -128,6 +141,8 @@ structure Sent where
   denom : Denom
   unescrow : Bool
   amount : Int
+  fwd : Option (Nat × Nat) := none   -- packet-forward-middleware's `InFlightPacket` (refund channel, refund sequence)
+  rcvBlocked : Bool := false         -- the counterparty-side receiver string is the bech32 of a blocked hub module account
   deriving DecidableEq, Repr, Inhabited
 
 /-- ghost log of release effects: one entry per real (not dry-run) execution of the ICS-20 callback -/
@@ -306,10 +321,40 @@ def icsRecv (s : St) (p : Packet) (isRollapp : Bool) : Option St :=
   | none => none
   | some s1 => some (if isRollapp then chargeBridgingFee s1 p else s1)
 
-/-- transfer `refundPacketToken`; `none` = error -/
-def icsRefund (s : St) (p : Packet) : Option St := icsCredit s p
-
 def hasAck (s : St) (c seq : Nat) : Bool := s.acks.any (fun a => a.1.1 == c && a.1.2 == seq)
+
+/-- the acknowledgement core IBC writes after a synchronous callback -/
+def writeAck (s : St) (c seq : Nat) (ok : Bool) : St := { s with acks := s.acks ++ [((c, seq), ok)] }
+
+/-- a forwarded packet came back with a success acknowledgement -/
+def fwdOk (p : Packet) : Bool := p.ptype == .onAck && !p.ackErr
+
+/-- packet-forward-middleware `WriteAcknowledgementForForwardedPacket`, the funds on error ack / timeout
+    (`rc` = refund channel): what was escrowed for the forward moves to the refund channel's escrow, or is
+    burned when it is that channel's own voucher; what was burned for the forward is minted to the refund
+    channel's escrow.  The refund goes back towards the ORIGIN chain — never to `p.target`. -/
+def fwdRefundFunds (s : St) (p : Packet) (rc : Nat) : Option St :=
+  if p.unescrow then
+    if p.denom != 1 + rc then sendCoins s (escrowAcct p.chan) (escrowAcct rc) p.denom p.amount
+    else if getBal s.bal (escrowAcct p.chan) p.denom < p.amount then none
+    else some (debit s (escrowAcct p.chan) p.denom p.amount)
+  else some (credit s (escrowAcct rc) p.denom p.amount)
+
+/-- … then the acknowledgement of the packet that was forwarded is written on the refund channel
+    (`WriteAcknowledgement`: channel end not CLOSED, no acknowledgement stored yet) -/
+def fwdSettle (s : St) (p : Packet) (r : Nat × Nat) : Option St :=
+  match (if fwdOk p then some s else fwdRefundFunds s p r.1) with
+  | none => none
+  | some s1 =>
+    if s1.closed.contains r.1 || hasAck s1 r.1 r.2 then none else some (writeAck s1 r.1 r.2 (fwdOk p))
+
+/-- what the transfer stack below delayedack does with an acknowledgement / timeout that moves funds:
+    transfer `refundPacketToken`, or — for a packet the hub sent as a packet-forward — packet-forward-middleware's
+    settlement of the forward (which also runs for a success acknowledgement); `none` = error -/
+def icsRefund (s : St) (p : Packet) : Option St :=
+  match p.fwd with
+  | none => icsCredit s p
+  | some r => fwdSettle s p r
 
 /-- the rollapp a hub channel is authenticated for (`GetRollappByPortChan`):
     `.ok none` = plain chain, `.error` = rollapp client but not its canonical channel -/
@@ -345,6 +390,7 @@ def memoFee : Memo → M Int
   | .notJson => .error .badMemo
   | .eibcBad => .error .badMemo
   | .eibc f => if f < 0 then .error .badMemo else .ok f
+  | .forward _ => .ok 0
 
 /-- `EIBCDemandOrderHandler` for ON_RECV -/
 def eibcOnRecv (s : St) (p : Packet) (memo : Memo) : M St :=
@@ -366,6 +412,13 @@ def eibcOnRefund (s : St) (p : Packet) : M St :=
   if p.amount - refundFee s p ≤ 0 then .error .invalid else
   .ok (setOrder s (newOrder s p (p.amount - refundFee s p) (refundFee s p) p.target))
 
+/-- `EIBCDemandOrderHandler` as a whole for ON_ACK / ON_TIMEOUT: `BlockedAddr(data.Receiver)` is applied
+    to every packet type — for a packet the hub SENT `data.Receiver` is the address on the counterparty; if
+    that string happens to be the bech32 of a blocked hub account the handler fails and with it the whole
+    `MsgAcknowledgement` (error ack) / `MsgTimeout` above the finalized height -/
+def eibcRefundHandler (s : St) (p : Packet) : M St :=
+  if p.cpBlocked then .error .invalid else eibcOnRefund s p
+
 -- ---------------------------------------------------------------- IBC callbacks (x/delayedack/ibc_middleware.go)
 
 inductive DRef
@@ -380,7 +433,9 @@ structure RecvData where
   memo : Memo
   deriving Repr, Inhabited
 
-inductive RecvRes | replay | async | ackOk | ackErr | closed
+/-- `async` = delayed by delayedack (nil ack, packet stored); `forwarded` = packet-forward-middleware's nil
+    ack (funds received and sent on; the acknowledgement follows the forwarded packet's) -/
+inductive RecvRes | replay | async | ackOk | ackErr | closed | forwarded
   deriving DecidableEq, Repr
 
 def cpIdOf (s : St) (c : Nat) : Bytes := match s.chans[c]? with | some ch => ch.cpId | none => []
@@ -396,9 +451,6 @@ def mkRecvPacket (s : St) (c seq ph : Nat) (rid : Bytes) (d : RecvData) (tgt : A
   { status := .pending, rollappId := rid, proofHeight := ph, ptype := .onRecv, srcChan := cpIdOf s c, seq := seq, chan := c,
     denom := drefDenom c d.dref, unescrow := drefUnescrow d.dref, amount := d.amount, target := tgt, orig := none,
     ackErr := false, perr := none }
-
-/-- the acknowledgement core IBC writes after a synchronous callback -/
-def writeAck (s : St) (c seq : Nat) (ok : Bool) : St := { s with acks := s.acks ++ [((c, seq), ok)] }
 
 /-- an error acknowledgement: the callback's writes are dropped, the ack is written -/
 def recvFail (s0 : St) (c seq : Nat) : St × RecvRes := (writeAck s0 c seq false, .ackErr)
@@ -438,36 +490,36 @@ def recvAuth (s0 : St) (c seq ph : Nat) (d : RecvData) : St × RecvRes :=
       if ra.isNone || isFinalizedFor s0 ra ph then recvPass s0 c seq (mkRecvPacket s0 c seq ph (ra.getD []) d tgt) ra
       else recvDelay s0 c seq (mkRecvPacket s0 c seq ph (ra.getD []) d tgt) d.memo
 
-/-- ibc-go core `RecvPacket` (channel end open) + `IBCMiddleware.OnRecvPacket` -/
-def recvOpen (s : St) (c seq ph : Nat) (d : RecvData) : St × RecvRes :=
-  if s.receipts.contains (c, seq) then (s, .replay) else
-  recvAuth { s with receipts := s.receipts ++ [(c, seq)] } c seq ph d
-
-/-- ibc-go core `RecvPacket`: the channel state is checked before anything else -/
-def recvPacket (s : St) (c seq ph : Nat) (d : RecvData) : St × RecvRes :=
-  if s.closed.contains c then (s, .closed) else recvOpen s c seq ph d
-
 def getSent (s : St) (c seq : Nat) : Option Sent := s.sent.find? (fun x => x.chan == c && x.seq == seq)
 
 def mkSentPacket (s : St) (x : Sent) (t : PType) (ph : Nat) (rid : Bytes) (ackErr : Bool) : Packet :=
   { status := .pending, rollappId := rid, proofHeight := ph, ptype := t, srcChan := hubIdOf s x.chan, seq := x.seq, chan := x.chan,
-    denom := x.denom, unescrow := x.unescrow, amount := x.amount, target := x.sender, orig := none, ackErr := ackErr, perr := none }
+    denom := x.denom, unescrow := x.unescrow, amount := x.amount, target := x.sender, orig := none, ackErr := ackErr, perr := none,
+    fwd := x.fwd, cpBlocked := x.rcvBlocked }
 
 def sentType (isTimeout : Bool) : PType := if isTimeout then .onTimeout else .onAck
 
-/-- not a rollapp, or already final -/
-def ackPass (s0 : St) (p : Packet) (ra : Option Bytes) (refund : Bool) : M (Option St) :=
-  if refund then
+/-- the error class of a failed refund / forward settlement: bank's "insufficient funds", or (forward
+    settlement only) the acknowledgement write on the refund channel -/
+def refundErr (s : St) (p : Packet) : Err :=
+  match p.fwd with
+  | none => .insufficient
+  | some r => if (if fwdOk p then some s else fwdRefundFunds s p r.1).isNone then .insufficient else .invalid
+
+/-- not a rollapp, or already final.  `settle`: the callback below moves funds or (forward) writes an
+    acknowledgement: refund on error ack / timeout, and every acknowledgement of a forwarded packet -/
+def ackPass (s0 : St) (p : Packet) (ra : Option Bytes) (settle : Bool) : M (Option St) :=
+  if settle then
     match icsRefund s0 p with
-    | none => .error .insufficient
+    | none => .error (refundErr s0 p)
     | some s1 => .ok (some (logRelease s1 p ra false))
   else .ok (some (logRelease s0 p ra false))
 
 /-- dry run, `savePacket`, and the eIBC order for refunds -/
 def ackDelay (s0 : St) (p : Packet) (refund : Bool) : M (Option St) :=
-  if refund && (icsRefund s0 p).isNone then .error .insufficient else
+  if (refund || p.fwd.isSome) && (icsRefund s0 p).isNone then .error (refundErr s0 p) else
   if refund then
-    match eibcOnRefund (setPacket (addByAddr s0 p.target (pkey p)) p) p with
+    match eibcRefundHandler (setPacket (addByAddr s0 p.target (pkey p)) p) p with
     | .error e => .error e
     | .ok s2 => .ok (some s2)
   else .ok (some (setPacket (addByAddr s0 p.target (pkey p)) p))
@@ -478,7 +530,7 @@ def ackAuth (s0 : St) (x : Sent) (ph : Nat) (isTimeout isErr : Bool) : M (Option
   | .error e => .error e
   | .ok ra =>
     if ra.isNone || isFinalizedFor s0 ra ph then
-      ackPass s0 (mkSentPacket s0 x (sentType isTimeout) ph (ra.getD []) (!isTimeout && isErr)) ra (isTimeout || isErr)
+      ackPass s0 (mkSentPacket s0 x (sentType isTimeout) ph (ra.getD []) (!isTimeout && isErr)) ra (isTimeout || isErr || x.fwd.isSome)
     else ackDelay s0 (mkSentPacket s0 x (sentType isTimeout) ph (ra.getD []) (!isTimeout && isErr)) (isTimeout || isErr)
 
 /-- ibc-go core `AcknowledgePacket` / `TimeoutPacket` + the middleware callback.
@@ -522,6 +574,40 @@ def sendOpen (s : St) (a : Addr) (c : Nat) (d : Denom) (amt : Int) : M St :=
 def sendTransfer (s : St) (a : Addr) (c : Nat) (d : Denom) (amt : Int) : M St :=
   if s.closed.contains c then .error .chanClosed else sendOpen s a c d amt
 
+-- ---------------------------------------------------------------- receive, with packet-forward-middleware
+
+/-- the in-flight record `ForwardTransferPacket` stores under the forwarded packet's (channel, sequence) -/
+def markFwd (s : St) (k q : Nat) (r : Nat × Nat) : St :=
+  { s with sent := s.sent.map (fun x => if x.chan == k && x.seq == q then { x with fwd := some r } else x) }
+
+/-- packet-forward-middleware `OnRecvPacket` for a memo with a `forward` key (below delayedack and
+    denommetadata, above bridgingfee and transfer): the funds are received by the intermediate address
+    (`receiveFunds`: the inner stack with the receiver overridden and the memo dropped — for a rollapp
+    transfer x/bridgingfee charges the intermediate address), then sent on over hub channel `k`
+    (`ForwardTransferPacket`: a `MsgTransfer` from the intermediate address), and NO acknowledgement is
+    written (nil ack).  Any failure is an error acknowledgement with everything rolled back.  Under
+    delayedack's dry run (rollapp packet above the finalized height) the nil ack is refused
+    ("delayed ack is not supported by the underlying IBC module"), so such a packet is never delayed.
+    `s0`: the receipt is written. -/
+def recvForward (s0 : St) (c seq ph : Nat) (d : RecvData) (k : Nat) : St × RecvRes :=
+  match recvAuth s0 c seq ph { d with target := some (pfmAddr c), memo := .none } with
+  | (s1, .ackOk) =>
+    match sendTransfer { s1 with acks := s0.acks } (pfmAddr c) k (drefDenom c d.dref) d.amount with
+    | .ok s2 => (markFwd s2 k (getNextSeq s1 k) (c, seq), .forwarded)
+    | .error _ => recvFail s0 c seq
+  | _ => recvFail s0 c seq
+
+/-- ibc-go core `RecvPacket` (channel end open) + `IBCMiddleware.OnRecvPacket` -/
+def recvOpen (s : St) (c seq ph : Nat) (d : RecvData) : St × RecvRes :=
+  if s.receipts.contains (c, seq) then (s, .replay) else
+  match d.memo with
+  | .forward k => recvForward { s with receipts := s.receipts ++ [(c, seq)] } c seq ph d k
+  | _ => recvAuth { s with receipts := s.receipts ++ [(c, seq)] } c seq ph d
+
+/-- ibc-go core `RecvPacket`: the channel state is checked before anything else -/
+def recvPacket (s : St) (c seq ph : Nat) (d : RecvData) : St × RecvRes :=
+  if s.closed.contains c then (s, .closed) else recvOpen s c seq ph d
+
 -- ---------------------------------------------------------------- finalization (x/delayedack/keeper/finalize.go)
 
 /-- eibc `delayedAckHooks.AfterPacketStatusUpdated` -/
@@ -544,18 +630,36 @@ def writeRecvAck (s : St) (p : Packet) (ok : Bool) : St × Option PErr :=
   if isClosed s p.chan then (s, some .ackClosed) else
   if hasAck s p.chan p.seq then (s, some .ackExists) else (writeAck s p.chan p.seq ok, none)
 
-/-- refund at finalization inside `ApplyFuncIfNoError` -/
+/-- the text `RollappPacket.Error` gets when the callback at finalization failed -/
+def refundPErr (s : St) (p : Packet) : PErr :=
+  match p.fwd with
+  | none => .refund (getBal s.bal (escrowAcct p.chan) p.denom) p.amount p.denom
+  | some r =>
+    if (if fwdOk p then some s else fwdRefundFunds s p r.1).isNone then
+      (if p.denom != 1 + r.1 then .fwdMove (getBal s.bal (escrowAcct p.chan) p.denom) p.amount p.denom
+       else .fwdBurn (getBal s.bal (escrowAcct p.chan) p.denom) p.amount p.denom)
+    else if s.closed.contains r.1 then .ackClosed else .ackExists
+
+/-- refund (or forward settlement) at finalization inside `ApplyFuncIfNoError`: when it fails the packet
+    is finalized all the same with the error recorded, and nothing is ever paid -/
 def refundRelease (s : St) (p : Packet) : St × Option PErr :=
   match icsRefund s p with
   | some s1 => (s1, none)
-  | none => (s, some (.refund (getBal s.bal (escrowAcct p.chan) p.denom) p.amount p.denom))
+  | none => (s, some (refundPErr s p))
+
+/-- success acknowledgement at finalization: nothing to do for ICS-20; packet-forward-middleware
+    writes the acknowledgement of the packet it had forwarded -/
+def ackRelease (s : St) (p : Packet) : St × Option PErr :=
+  match p.fwd with
+  | none => (s, none)
+  | some _ => refundRelease s p
 
 /-- the type switch of `finalizeRollappPacket`: run the ICS-20 callback for real;
     the second component is `packetErr` -/
 def releaseEffect (s : St) (p : Packet) : St × Option PErr :=
   match p.ptype with
   | .onRecv => writeRecvAck (recvRelease s p).1 p (recvRelease s p).2
-  | .onAck => if p.ackErr then refundRelease s p else (s, none)
+  | .onAck => if p.ackErr then refundRelease s p else ackRelease s p
   | .onTimeout => refundRelease s p
   | .undefined => (s, none)
 
@@ -944,12 +1048,29 @@ inductive Op
   | block
   | chanClose (c : Nat)
   | chanOpen (c : Nat)
+  | timeoutOnClose (c seq : Nat)
+  | sendBlk (a : Addr) (c : Nat) (d : Denom) (amt : Int)   -- `MsgTransfer` whose receiver string is a blocked hub account's bech32
   deriving Repr, Inhabited
 
 /-- the channel end's state is written: CLOSED (`ChanCloseConfirm`) or OPEN again -/
 def setChanClosed (s : St) (c : Nat) (closed : Bool) : M St :=
   if s.chans.length ≤ c then .error .invalid else
   .ok { s with closed := if closed then (if s.closed.contains c then s.closed else s.closed ++ [c]) else s.closed.filter (· != c) }
+
+def markBlk (s : St) (k q : Nat) : St :=
+  { s with sent := s.sent.map (fun x => if x.chan == k && x.seq == q then { x with rcvBlocked := true } else x) }
+
+def sendBlk (s : St) (a : Addr) (c : Nat) (d : Denom) (amt : Int) : M St :=
+  match sendTransfer s a c d amt with
+  | .ok s1 => .ok (markBlk s1 c (getNextSeq s c))
+  | .error e => .error e
+
+/-- `MsgTimeoutOnClose`: `IBCProofHeightDecorator` (app/ante) stashes a proof height for `MsgRecvPacket`,
+    `MsgAcknowledgement` and `MsgTimeout` only, so delayedack's `OnTimeoutPacket` finds none
+    (`UnpackPacketProofHeight`: `gerrc.ErrInternal`, before the channel is even looked at) and the whole
+    message fails — on rollapp channels and on plain ones alike.  (Redelivery is core's no-op before that.) -/
+def timeoutOnClose (s : St) (c seq : Nat) : M St :=
+  if !s.commits.contains (c, seq) then .ok s else .error .internal
 
 inductive Out
   | ok | err (e : Err) | recv (r : RecvRes) | replay
@@ -989,6 +1110,8 @@ def step (s : St) : Op → St × Out
   | .block => ({ s with h := s.h + 1 }, .ok)
   | .chanClose c => ofM s (setChanClosed s c true)
   | .chanOpen c => ofM s (setChanClosed s c false)
+  | .timeoutOnClose c seq => ofM s (timeoutOnClose s c seq)
+  | .sendBlk a c d amt => ofM s (sendBlk s a c d amt)
 
 def run (s : St) (ops : List Op) : St := ops.foldl (fun s o => (step s o).1) s
 
